@@ -23,6 +23,7 @@ func init() {
 var phiName = regexp.MustCompile(`φ[A-Za-z_0-9]+(⟨[^⟩]*⟩)?`)
 
 func runC18(c *Ctx) {
+	defer c.shared("R6", "C08/R4", "each directive shows the value its argument had when it was evaluated: call arguments (printf's included) are evaluated into cells of their own, so a later argument's side effect cannot change an earlier one", keyHas("call-arguments-copied"), c08R4)
 	p := c.P
 	pf := p.LangFunc("nativePrintf")
 	if pf == nil {
